@@ -18,6 +18,8 @@ META = {
 SYS = X + "MaxCharsCommandSizeLimiter::new_system"
 MAXCHARS = X + "MaxCharsCommandSizeLimiter"
 SC_ARG_MAX = 0          # libc::_SC_ARG_MAX on linux
+SC_PAGESIZE = 30        # libc::_SC_PAGESIZE on linux
+PTR = 8                 # pointer width of the analysed target (x86_64)
 MAX_ARG_STRLEN = 131072
 
 
@@ -120,67 +122,86 @@ def run(ctx):
 
     # ---- R2 budget expression -----------------------------------------------------------------------
     ns = ctx.fn("R2", SYS)
+    sysfields = {}
     if ns is not None:
-        news = [(b, t) for b, t in ns.calls() if t.callee == MAXCHARS + "::new"] or [(b, t) for b, t in ns.calls() if (t.callee or "").startswith(MAXCHARS + "::")]
-        aggs = []
-        if not news:
-            for b in ns.reachable():
-                for s in ns.blocks[b].stmts:
-                    if s.rv is not None and s.rv.k == "agg" and s.rv.j.get("adt") == MAXCHARS:
-                        aggs.append((b, s))
+        # the limiter value built by new_system: its fields, looking through `..Self::new(limit)` (new stores its
+        # parameter as the bound and zero/neutral values elsewhere — checked below)
+        for b in ns.reachable():
+            for st in ns.blocks[b].stmts:
+                if st.rv is not None and st.rv.k == "agg" and st.rv.j.get("adt") == MAXCHARS:
+                    for n_, op in zip(st.rv.j["fields"], st.rv.ops):
+                        sysfields[n_] = prim.origin_of_operand(ns, op)
+        news = [(b, t) for b, t in ns.calls() if t.callee == MAXCHARS + "::new"]
         lim = None
         if news:
             lim = prim.origin_of_operand(ns, news[0][1].args[0])
-        elif aggs:
-            names = aggs[0][1].rv.j["fields"]
-            lim = prim.origin_of_operand(ns, aggs[0][1].rv.ops[names.index("max_chars")])
+            mo = sysfields.get("max_chars")
+            if mo is not None:
+                ms = mo.strip()
+                ctx.ob("R2", "bound-is-the-computed-limit", ms.k == "field" and ms.a == "max_chars" and any(c.a["callee"] == MAXCHARS + "::new" for c in ms.call_nodes()) or (ms.k == "call" and False),
+                       "new_system's max_chars is %s; oracle: the max_chars of Self::new(limit)" % mo.fmt()[:160], fn=ns, how="provenance slice", nontrivial=False)
+        elif "max_chars" in sysfields:
+            lim = sysfields["max_chars"]
+        nf = prog.fns.get(MAXCHARS + "::new")
+        if nf is not None and news:
+            ctx.analysed_fns.add(nf.path)
+            for b in nf.reachable():
+                for st in nf.blocks[b].stmts:
+                    if st.rv is not None and st.rv.k == "agg" and st.rv.j.get("adt") == MAXCHARS:
+                        fo = dict(zip(st.rv.j["fields"], [prim.origin_of_operand(nf, op).strip() for op in st.rv.ops]))
+                        ctx.ob("R2", "new-stores-its-limit", fo.get("max_chars") is not None and fo["max_chars"].k == "arg", "MaxCharsCommandSizeLimiter::new stores %s as max_chars" % (fo.get("max_chars").fmt() if fo.get("max_chars") is not None else "?"), fn=nf, how="provenance slice", nontrivial=False)
         if lim is None:
             ctx.missing("R2", "limit value constructed in new_system")
         else:
             base, subs = _sub_terms(lim)
             sc = [c for c in base.call_nodes() if c.a["callee"].endswith("sysconf")]
             arg0 = sc[0].kids[0].strip() if sc else None
-            ctx.ob("R2", "budget-from-ARG_MAX", bool(sc) and arg0.k == "const" and arg0.a.get("v") == SC_ARG_MAX,
-                   "the system limit starts from %s; must be sysconf(_SC_ARG_MAX)" % base.fmt(), fn=ns, how="provenance slice")
+            ctx.ob("R2", "budget-from-ARG_MAX", len(sc) == 1 and arg0.k == "const" and arg0.a.get("v") == SC_ARG_MAX and set(c.a["name"] for c in base.call_nodes()) <= {"sysconf", "min", "clamp"},
+                   "the system limit starts from %s; must be sysconf(_SC_ARG_MAX), possibly clamped" % base.fmt(), fn=ns, how="provenance slice")
             # the kernel caps the budget at 3/4 of _STK_LIM (6 MiB) however large RLIMIT_STACK is, while sysconf(_SC_ARG_MAX)
-            # is RLIMIT_STACK/4 without a cap: the value must be clamped by a constant <= 6 MiB somewhere on the way
+            # is RLIMIT_STACK/4 without a cap: the value must be clamped by a constant <= 6 MiB before anything is subtracted
             capped = False
-            for c in lim.call_nodes():
-                if c.a["name"] in ("min", "clamp"):
-                    for k in c.kids:
-                        kk = k.strip()
-                        if kk.k == "const" and isinstance(kk.a.get("v"), int) and 0 < kk.a["v"] <= 6 * 1024 * 1024:
-                            capped = True
+            for c in base.call_nodes():
+                if c.a["name"] in ("min", "clamp") and any(x.a["callee"].endswith("sysconf") for x in c.call_nodes()):
+                    ks = [k.strip() for k in c.kids]
+                    if c.a["name"] == "min" and any(k.k == "const" and isinstance(k.a.get("v"), int) and 131072 <= k.a["v"] <= 6 * 1024 * 1024 for k in ks):
+                        capped = True
+                    if c.a["name"] == "clamp" and len(ks) == 3 and ks[2].k == "const" and isinstance(ks[2].a.get("v"), int) and 131072 <= ks[2].a["v"] <= 6 * 1024 * 1024:
+                        capped = True
             for b in ns.reachable():
                 if ns.blocks[b].term.k == "switch":
                     pr = prim.switch_pred(ns, b).strip()
                     if pr.k == "bin" and pr.a in ("Gt", "Ge", "Lt", "Le") and any(isinstance(c.get("v"), int) and 131072 <= c["v"] <= 6 * 1024 * 1024 for c in pr.consts()) and any(x.endswith("sysconf") for x in pr.callees()):
                         capped = True
             ctx.ob("R2", "kernel-cap", capped,
-                   "the budget %s is not clamped by a constant <= 6 MiB: the kernel caps argv+envp at 3/4 of _STK_LIM (6 MiB) whatever RLIMIT_STACK is, but sysconf(_SC_ARG_MAX) = RLIMIT_STACK/4 grows without bound (ulimit -s unlimited)" % lim.fmt(), fn=ns, how="provenance slice / guards of new_system")
-            consts = [s.strip().a.get("v") for s in subs if s.strip().k == "const"]
+                   "the budget %s is not clamped by a constant in [128 KiB, 6 MiB]: the kernel caps argv+envp at 3/4 of _STK_LIM (6 MiB) whatever RLIMIT_STACK is, but sysconf(_SC_ARG_MAX) = RLIMIT_STACK/4 grows without bound (ulimit -s unlimited)" % lim.fmt()[:200], fn=ns, how="provenance slice / guards of new_system")
+            consts = [s_.strip().a.get("v") for s_ in subs if s_.strip().k == "const"]
             ctx.ob("R2", "headroom", any(isinstance(v, int) and v >= 2048 for v in consts), "constant headroom subtracted: %s; POSIX asks for at least 2048 bytes" % consts, fn=ns, how="constant operand")
-            envsub = [s for s in subs if s.strip().k != "const"]
+            ctx.ob("R2", "nothing-added-to-the-budget", not any(x.k == "bin" and x.a in ("Add", "AddWithOverflow", "Mul", "MulWithOverflow", "Shl") for x in lim.walk()) and not any(c.a["name"] in ("saturating_add", "checked_add", "max", "saturating_mul") for c in lim.call_nodes()),
+                   "the limit is %s; only subtractions from (and a clamp of) the system value are allowed" % lim.fmt()[:200], fn=ns, how="provenance slice", nontrivial=False)
+            envsub = [s_ for s_ in subs if s_.strip().k != "const"]
             ok_env = False
+            env_ptr = False
             detail = "no environment term"
-            for s in envsub:
-                cl = _closure_fns(prog, s)
-                names = [c.a.get("name") for c in s.call_nodes()]
-                it_env = any(x.k == "arg" for x in s.walk())
+            for s_ in envsub:
+                cl = _closure_fns(prog, s_)
+                names = [c.a.get("name") for c in s_.call_nodes()]
+                it_env = any(x.k == "arg" for x in s_.walk())
                 for cf in cl:
                     ctx.analysed_fns.add(cf.path)
                     ro = prim.origin_of_local(cf, 0)
-                    core = _core_bin(ro)
                     costs = [c for c in ro.call_nodes() if c.a["callee"] == X + "count_osstr_chars_for_exec"]
                     subjects = set()
                     for c in costs:
                         fl = [x.a for x in c.kids[0].walk() if x.k == "field"]
                         subjects.update(fl)
-                    adds = core.k == "bin" and core.a in ("Add", "AddWithOverflow")
+                    adds_only = all(x.a in ("Add", "AddWithOverflow") for x in ro.walk() if x.k == "bin") and not [c for c in ro.call_nodes() if c not in costs and c.a["name"] not in ("deref", "as_ref", "saturating_add")]
                     detail = "per-entry cost %s" % ro.fmt()
-                    if adds and {"0", "1"} <= subjects and "sum" in names and it_env:
+                    if adds_only and {"0", "1"} <= subjects and len(costs) == 2 and "sum" in names and it_env:
                         ok_env = True
+                        env_ptr = any(isinstance(c.get("v"), int) and c["v"] >= PTR for c in ro.consts())
             ctx.ob("R2", "environment-charged", ok_env, "the environment must be charged as the sum over all entries of cost(name) + cost(value) (each is a NUL-terminated part of one envp string: name=value\\0 = len+1+len'+1-1; charging both +1 is the conservative side); found %s" % detail, fn=ns, how="provenance slice through the closure")
+            ctx.ob("R3", "pointer-term:environment", env_ptr, "each environment entry must also be charged the pointer to it (>= %d bytes); found %s (contract K1)" % (PTR, detail), fn=ns, how="constant term in the closure")
     shared.cost_model(ctx, "R2")
 
     # ---- R3 pointer term in the system limiter's charge (K1) -----------------------------------------
@@ -192,80 +213,66 @@ def run(ctx):
         ctx.missing("R3", "MaxCharsCommandSizeLimiter::try_arg")
     else:
         ctx.analysed_fns.add(ta.path)
-        ptr_term = _has_pointer_term(prog, ta, ns)
-        ctx.ob("R3", "pointer-term", ptr_term,
-               "the system limiter charges each argument %s; execve additionally charges one pointer (8 bytes) per argv/envp string against the same budget, so many short arguments overflow it (contract K1)" % _cost_desc(ta),
-               fn=ta, how="provenance slice of the compared cost")
+        tn = [b for b, t in ta.calls() if t.j.get("callee_name") == "try_next"]
+        atoms = prim.norm_guards(prim.dominating_guards(ta, tn[0])) if len(tn) == 1 else []
+        # (a) the charge compared with the budget = cost(arg) + self.<overhead>, and the system limiter's overhead is
+        #     at least a pointer
+        over_field = None
+        cost_desc = "?"
+        for at in atoms:
+            if at["rel"] not in ("le", "lt", "ge", "gt"):
+                continue
+            for side in (at["a"], at["b"]):
+                sd = side.strip()
+                if any(x.k == "field" and x.a == "current_size" for x in sd.walk()):
+                    cost_desc = sd.fmt()[:200]
+                    fl = [x.a for x in sd.walk() if x.k == "field" and x.a not in ("current_size", "arg", "0", "1")]
+                    if len(fl) == 1 and any(c.a["callee"].endswith("count_osstr_chars_for_exec") for c in sd.call_nodes()) and not any(x.k == "bin" and x.a not in ("Add", "AddWithOverflow") for x in sd.walk()):
+                        over_field = fl[0]
+        ov = sysfields.get(over_field).strip() if over_field in sysfields else None
+        ok = ov is not None and ov.k == "const" and isinstance(ov.a.get("v"), int) and ov.a["v"] >= PTR
+        ctx.ob("R3", "pointer-term", ok,
+               "the system limiter compares %s with its budget and initialises the per-argument overhead `%s` to %s; oracle: cost(arg) + an overhead of at least one pointer (%d bytes): execve charges one pointer per argv/envp string against the same budget, so many short arguments overflow it otherwise (contract K1)" % (cost_desc, over_field, ov.fmt() if ov is not None else "?", PTR),
+               fn=ta, how="dominating guards (normal form) + field initialiser in new_system")
         # ---- R4 per-argument bound -----------------------------------------------------------------------
-        found = []
-        cands = [ta] + [f for f in prog.trait_method_impls(X + "CommandSizeLimiter", "try_arg") if f is not ta]
-        for nm in ("CommandBuilder::<'_>::add_arg", "process_input", "LimiterCollection::try_arg"):
-            f = prog.fns.get(X + nm)
-            if f is not None:
-                cands.append(f)
-        for f in cands:
-            for b in f.reachable():
-                t = f.blocks[b].term
-                if t.k != "switch":
-                    continue
-                pr = prim.switch_pred(f, b).strip()
-                if pr.k != "bin" or pr.a not in ("Gt", "Ge", "Lt", "Le"):
-                    continue
-                sides = [k.strip() for k in pr.kids]
-                for i in (0, 1):
-                    me, other = sides[i], sides[1 - i]
-                    single = any(c.endswith("count_osstr_chars_for_exec") or c.split("::")[-1] == "len" for c in me.callees()) and not any(x.k == "field" and x.a in ("current_size",) for x in me.walk())
-                    bound = (other.k == "const" and isinstance(other.a.get("v"), int) and 4096 <= other.a["v"] <= MAX_ARG_STRLEN) or any(c.endswith("sysconf") for c in other.callees()) or (other.k == "field" and "arg" in str(other.a) and "max" in str(other.a))
-                    if single and bound:
-                        found.append((f, b))
-        ctx.ob("R4", "per-argument-bound", bool(found),
-               "no comparison of a single argument's size with a MAX_ARG_STRLEN-class bound (<= 131072) guards acceptance: one argument longer than 128 KiB but below the total budget is handed to exec and rejected with E2BIG instead of being reported with exit status 1 (contract K1)",
-               fn=ta, how="search over the guards of the limiter chain (%d functions)" % len(cands))
+        bound_field = None
+        for at in atoms:
+            a, b_ = at["a"].strip(), at["b"].strip()
+            for x, y, rel in ((a, b_, at["rel"]), (b_, a, prim._SWAP[at["rel"]])):
+                if rel in ("le", "lt") and x.k == "call" and x.a["callee"].endswith("count_osstr_chars_for_exec") and any(z.k == "arg" and z.a["name"] == "arg" for z in x.walk()) and y.k == "field" and y.a not in ("current_size", "max_chars"):
+                    bound_field = (y.a, rel)
+        bo = sysfields.get(bound_field[0]) if bound_field else None
+        okb = False
+        bdesc = "?"
+        if bo is not None:
+            bs = bo.strip()
+            bdesc = bs.fmt()[:120]
+            if bs.k == "const" and isinstance(bs.a.get("v"), int):
+                okb = 4096 <= bs.a["v"] <= MAX_ARG_STRLEN
+            elif (bs.k == "call" and bs.a["name"] in ("saturating_mul", "checked_mul", "wrapping_mul")) or (bs.k == "bin" and bs.a in ("Mul", "MulWithOverflow")) or (bs.k == "field" and bs.kids and bs.kids[0].strip().k == "bin"):
+                core = _core_bin(bs) if bs.k != "call" else bs
+                ks = [k.strip() for k in core.kids]
+                page = [k for k in ks if any(c.a["callee"].endswith("sysconf") and c.kids and c.kids[0].strip().k == "const" and c.kids[0].strip().a.get("v") == SC_PAGESIZE for c in k.call_nodes())]
+                mult = [k for k in ks if k.k == "const" and isinstance(k.a.get("v"), int)]
+                okb = len(page) == 1 and len(mult) == 1 and 1 <= mult[0].a["v"] <= 32
+        ctx.ob("R4", "per-argument-bound", bound_field is not None and okb,
+               "acceptance by the system limiter is guarded by cost(arg) %s self.%s with %s = %s in new_system; oracle: a comparison of the single argument's size (terminator included) with a bound of at most MAX_ARG_STRLEN = 32 pages (131072 with 4 KiB pages): a longer argument below the total budget is otherwise handed to exec and rejected with E2BIG instead of being reported with exit status 1 (contract K1)" % (
+                   {"le": "<=", "lt": "<"}.get(bound_field[1] if bound_field else None, "?"), bound_field[0] if bound_field else "?", bound_field[0] if bound_field else "?", bdesc),
+               fn=ta, how="dominating guards (normal form) + field initialiser in new_system")
+        # the -s limiter (new) must not be stricter than the user asked: neutral overhead, no per-argument bound
+        if nf is not None:
+            for b in nf.reachable():
+                for st in nf.blocks[b].stmts:
+                    if st.rv is not None and st.rv.k == "agg" and st.rv.j.get("adt") == MAXCHARS:
+                        fo = dict(zip(st.rv.j["fields"], [prim.origin_of_operand(nf, op).strip() for op in st.rv.ops]))
+                        neutral = True
+                        if over_field in fo:
+                            neutral = neutral and fo[over_field].k == "const" and fo[over_field].a.get("v") == 0
+                        if bound_field and bound_field[0] in fo:
+                            v = fo[bound_field[0]]
+                            neutral = neutral and v.k == "const" and isinstance(v.a.get("v"), int) and v.a["v"] >= (1 << 62)
+                        ctx.ob("R4", "-s-limiter-is-neutral", neutral, "the limiter built for -s has overhead %s and per-argument bound %s; oracle 0 and unbounded (-s counts characters only)" % (fo.get(over_field).fmt() if over_field in fo else "-", fo.get(bound_field[0]).fmt() if bound_field and bound_field[0] in fo else "-"), fn=nf, how="constant fields", nontrivial=False)
 
     # ---- R5 oversized single argument -> ArgumentTooLarge -> exit 1 -----------------------------------
     C.import_rules(ctx, "C04", ["R5"], "R5")
     C.import_rules(ctx, "C19", ["R1"], "R5")
-
-
-def _cost_desc(ta):
-    for b in ta.reachable():
-        t = ta.blocks[b].term
-        if t.k == "switch":
-            pr = prim.switch_pred(ta, b).strip()
-            if pr.k == "bin" and pr.a in ("Le", "Lt", "Gt", "Ge"):
-                return pr.fmt()
-    return "?"
-
-
-def _has_pointer_term(prog, ta, ns):
-    """the cost compared in try_arg, or a per-argument overhead field initialised in new_system, derives from a
-    pointer size: size_of::<*const _>/<usize>/<&_> or align/ pointer-width constant 8 added to the byte count"""
-    def ptr_in(o, fn):
-        for c in o.call_nodes():
-            if c.a["name"] in ("size_of", "size_of_val", "align_of"):
-                return True
-        return False
-    for b in ta.reachable():
-        t = ta.blocks[b].term
-        if t.k != "switch":
-            continue
-        pr = prim.switch_pred(ta, b).strip()
-        if pr.k == "bin" and pr.a in ("Le", "Lt", "Gt", "Ge"):
-            if ptr_in(pr, ta):
-                return True
-            # a self field other than the counter/bound participating in the cost
-            extra = [x.a for x in pr.walk() if x.k == "field" and x.a not in ("current_size", "max_chars", "0", "1", "arg")]
-            for fld in extra:
-                for f, bb, obj, val, kind in prim.field_writes(prog, MAXCHARS, fld):
-                    if f.path == SYS and val is not None:
-                        v = val.strip()
-                        if ptr_in(val, f) or (v.k == "const" and v.a.get("v") == 8):
-                            return True
-            # literal pointer width added to the byte cost
-            core = pr
-            for x in core.walk():
-                if x.k == "bin" and x.a in ("Add", "AddWithOverflow"):
-                    ks = [k.strip() for k in x.kids]
-                    if any(k.k == "const" and k.a.get("v") == 8 for k in ks) and any(c.endswith("count_osstr_chars_for_exec") for k in ks for c in k.callees()):
-                        return True
-    return False
